@@ -344,8 +344,73 @@ def cookie_lookup_case():
     return None
 
 
+def cookie_handshake_case():
+    """full DBUS_COOKIE_SHA1 exchanges against a keyring in a temporary directory: a challenge naming a stored cookie is
+    answered with the matching hash and the handshake completes; a challenge the client cannot answer (id not in the
+    keyring, no such keyring, malformed data) is still ANSWERED - one line - and the handshake completes with the next
+    mechanism the server accepts"""
+    import binascii, hashlib, os, shutil, tempfile, time
+    from txdbus.error import DBusAuthenticationFailed
+    tmp = tempfile.mkdtemp(prefix='verif_c07h_')
+    try:
+        os.chmod(tmp, 0o700)
+        now = str(int(time.time())).encode('ascii')
+        with open(os.path.join(tmp, 'org_freedesktop_general'), 'wb') as f:
+            f.write(b'7 ' + now + b' c00c1e\n' + b'12 ' + now + b' 5ec2e7\n')
+        challenges = [('stored cookie', b'org_freedesktop_general 12 feedbeef', b'5ec2e7'), ('id not in the keyring', b'org_freedesktop_general 99 feedbeef', None),
+                      ('no such keyring', b'no_such_context 12 feedbeef', None), ('two tokens only', b'org_freedesktop_general 12', None),
+                      ('empty challenge', b'', None)]
+        for what, chal, cookie in challenges:
+            for unix in (False, True):
+                ca, p = make_client(unix)
+                ca.cookie_dir = tmp
+                script = [b'REJECTED DBUS_COOKIE_SHA1 ANONYMOUS']
+                rounds = 0
+                try:
+                    while not ca.authenticated and rounds < 12:
+                        rounds += 1
+                        last = p.sent[-1]
+                        cmd = last.split(b' ')[0]
+                        if cmd == b'AUTH':
+                            mech = last.split(b' ')[1] if len(last.split(b' ')) > 1 else b''
+                            reply = (b'DATA ' + binascii.hexlify(chal)) if mech == b'DBUS_COOKIE_SHA1' else b'OK 1234deadbeef' if mech == b'ANONYMOUS' else b'REJECTED DBUS_COOKIE_SHA1 ANONYMOUS'
+                        elif cmd == b'DATA':
+                            tokens = binascii.unhexlify(last[5:]).split()
+                            good = cookie is not None and len(tokens) == 2 and tokens[1] == binascii.hexlify(
+                                hashlib.sha1(b':'.join([chal.split()[2], tokens[0], cookie])).digest())
+                            if cookie is not None and not good:
+                                return 'challenge %r for the stored cookie %r answered with %r: not <client challenge> <sha1(server:client:cookie)>' % (chal, cookie, last)
+                            reply = b'OK 1234deadbeef' if good else b'REJECTED DBUS_COOKIE_SHA1 ANONYMOUS'
+                        elif cmd in (b'ERROR', b'CANCEL'):
+                            reply = b'REJECTED DBUS_COOKIE_SHA1 ANONYMOUS'
+                        elif cmd == b'NEGOTIATE_UNIX_FD':
+                            reply = b'AGREE_UNIX_FD'
+                        else:
+                            return 'cookie handshake (%s): client sent %r' % (what, last)
+                        n0 = len(p.sent)
+                        ca.handleAuthMessage(reply)
+                        if len(p.sent) != n0 + 1:
+                            return 'cookie handshake (%s, unix=%s): the client sent %d lines in answer to %r (a stall unless exactly one)' % (what, unix, len(p.sent) - n0, reply)
+                except DBusAuthenticationFailed as e:
+                    return 'cookie handshake (%s, unix=%s): given up (%s) although the server accepts ANONYMOUS; client lines %r' % (what, unix, e, p.sent)
+                except Exception as e:
+                    return 'cookie handshake (%s, unix=%s) raised %s: %s' % (what, unix, type(e).__name__, e)
+                if not ca.authenticated or p.sent[-1] != b'BEGIN':
+                    return 'cookie handshake (%s, unix=%s) did not complete: client lines %r' % (what, unix, p.sent)
+                used_cookie = any(l.startswith(b'DATA ') for l in p.sent)
+                if (cookie is not None) != used_cookie and cookie is not None:
+                    return 'cookie handshake (%s): the stored cookie was not used: %r' % (what, p.sent)
+    finally:
+        shutil.rmtree(tmp, ignore_errors=True)
+    return None
+
+
 def bounded(tier, seed):
     n = 0
+    n += 1
+    f = cookie_handshake_case()
+    if f:
+        return n, f, {'case': 'cookie handshake'}
     n += 1
     f = split_case()
     if f:
